@@ -98,7 +98,7 @@ def run(tier, seed, jobs):
         for init in INITS:
             plans.append({"cfg_ref": ("vf.props.c04", "cfg", [init]), "alphabet": alphabet(tier), "depth": 2, "label": f"init={init} wide"})
         plans.append({"cfg_ref": ("vf.props.c04", "cfg", ["mixed"]), "alphabet": alphabet("quick"), "depth": 3, "label": "init=mixed narrow"})
-    plans.append({"cfg_ref": ("vf.props.c04", "cfg", ["plain"]), "alphabet": alphabet_toggle(tier), "depth": 4 if tier == "quick" else 6,
+    plans.append({"cfg_ref": ("vf.props.c04", "cfg", ["plain"]), "alphabet": alphabet_toggle(tier), "depth": 4 if tier == "quick" else 5,
                   "label": "init=plain, toggling alphabet (deep, narrow)"})
     return run_h(PROP, RULES, plans, ("C04",), jobs, seed,
                  ["two read-write sessions on INBOX(2) (B may switch to EXAMINE); flag lists as in the alphabet "
@@ -106,7 +106,7 @@ def run(tier, seed, jobs):
                   "\\Recent and the derived `unseen` marker are not compared with a model value, except: `unseen` present iff \\Seen absent; "
                   "\\Recent never comes back for a message within one session's stream or in .mh_sequences, and no STORE changes the folder's Recent sequence",
                   "a session's flag knowledge is the last FLAGS value it was sent per message; checked when each command ends and at sync points"],
-                 time_budget=85 if tier == "quick" else 900)
+                 time_budget=85 if tier == "quick" else 1500)
 
 
 def replay(rec):
